@@ -484,10 +484,18 @@ def _ob_ieee_roundtrip(i: int) -> bool:
     from nixio.dimensions import SampledDimension, IndexMode
     si, off, mode, N = PART[:4]
     lo = PART[4] if len(PART) > 4 else 0
+    frac = PART[5] if len(PART) > 5 else None
     assume(lo <= i <= N)
     d = SampledDimension.__new__(SampledDimension)
     d._h5group = _G({"sampling_interval": si, "offset": off if off else None})
     pos = d.position_at(i)
+    if frac is not None:
+        # a position clearly BETWEEN sample i and sample i + 1
+        try:
+            got = d.index_of(pos + frac * si, getattr(IndexMode, mode))
+        except IndexError:
+            return False
+        return got == (i + 1 if mode == "GreaterOrEqual" else i)
     try:
         got = d.index_of(pos, getattr(IndexMode, mode))
     except IndexError:
@@ -502,7 +510,10 @@ def _custom_ieee():
     from vf import smt_fp
     si, off, mode, N = PART[:4]
     lo = PART[4] if len(PART) > 4 else 0
-    r = smt_fp.decide(os.environ.get("VERIF_REPO", "/repo"), si, off, mode, N, lo=lo)
+    frac = PART[5] if len(PART) > 5 else None
+    r = smt_fp.decide(os.environ.get("VERIF_REPO", "/repo"), si, off, mode, N, lo=lo, frac=frac)
+    if frac is not None:
+        r["bounds_extra"] = "position = position_at(i) + %r * interval (between two samples)" % frac
     r["bounds"] = ["%d <= i <= %d" % (lo, N), "sampling_interval == %r (IEEE double)" % si,
                    "offset == %r (IEEE double)" % off, "mode == %s" % mode]
     r["asserts"] = ["index_of(position_at(i), mode) == i (i - 1 for Less; IndexError iff Less and i == 0), "
@@ -779,15 +790,19 @@ OBLIGATIONS = [
     Ob("sampled_roundtrip_ieee754", _ob_ieee_roundtrip, timeout=900, custom=_custom_ieee, twin=False,
        partition_by_tier={
            "quick": [(si, off, m, 4096) for si, off in ((0.1, 0.0), (0.001, 0.0), (0.3, 0.7))
-                     for m in ("LessOrEqual", "GreaterOrEqual", "Less")],
+                     for m in ("LessOrEqual", "GreaterOrEqual", "Less")] +
+                    # positions BETWEEN two samples, offsets that are huge compared with the interval
+                    [(0.0005, off, m, 1024, 0, fr) for off in (-250.0, 100.0)
+                     for m, fr in (("GreaterOrEqual", 0.4), ("LessOrEqual", 0.6), ("Less", 0.4))],
            "thorough": [(si, off, m, lo + 4095, lo) for si, off in ((0.1, 0.0), (0.001, 0.0), (0.3, 0.7),
                                                                     (0.1, -1.3), (2.5e-05, 0.0),
                                                                     (1.0 / 3.0, 0.25))
                         for m in ("LessOrEqual", "GreaterOrEqual", "Less") for lo in (0, 4096, 8192, 12288)]},
        functions=[_S + "position_at", _S + "index_of"], replay=_replay_ieee,
        outside="other interval / offset pairs than the listed concrete doubles; sample numbers above "
-               "4096 (quick) / 16383 (thorough, in four chunks); positions that are not exactly "
-               "position_at(i)"),
+               "4096 (quick) / 16383 (thorough, in four chunks); positions other than position_at(i) and "
+               "position_at(i) + 0.4 / 0.6 intervals (the latter for interval 0.0005 with offsets -250 and 100, "
+               "i <= 1024)"),
     Ob("slice_mode_mapping", _ob_slice_mode, timeout=30,
        functions=["nixio.dimensions.SliceMode.to_index_mode"]),
 ]
